@@ -115,12 +115,13 @@ Definition clean_step (rooted : bool) (st : list bytes) (s : bytes) : list bytes
     | [] => if rooted then [] else [s]
     end
   else s :: st.
+Definition seg_ok (s : bytes) : bool := negb (is_nil s) && negb (bytes_eqb s dot).
 Definition path_clean (p : bytes) : bytes :=
   match p with
   | [] => dot
   | c :: _ =>
       let rooted := c =? 47 in
-      let segs := filter (fun s => negb (is_nil s) && negb (bytes_eqb s dot)) (split_on 47 p) in
+      let segs := filter seg_ok (split_on 47 p) in
       let body := join_with 47 (rev (fold_left (clean_step rooted) segs [])) in
       if rooted then 47 :: body else match body with [] => dot | _ => body end
   end.
@@ -131,8 +132,16 @@ Definition path_join (a b : bytes) : bytes :=
   | _, [] => path_clean a
   | _, _ => path_clean (a ++ 47 :: b)
   end.
-(** An absolute path that path.Clean leaves alone. *)
-Definition tidy (p : bytes) : bool := starts_with [47] p && bytes_eqb (path_clean p) p.
+(** A plain path segment: not empty, no '/', not "." or "..". *)
+Definition plain_seg (s : bytes) : bool :=
+  negb (is_nil s) && negb (has_byte 47 s) && negb (bytes_eqb s dot) && negb (bytes_eqb s dotdot).
+(** A tidy path: "/" followed by plain segments separated by single slashes ("/", "/a", "/a/b";
+    with no white space at either end: absolute paths that path.Clean and strings.TrimSpace leave alone). *)
+Definition tidy (p : bytes) : bool :=
+  match p with
+  | 47 :: r => (is_nil r || forallb plain_seg (split_on 47 r)) && trimmed p
+  | _ => false
+  end.
 
 (** ** url.Parse: the fragment the configuration code relies on (scheme, host, path).
     Modelled: control bytes rejected; fragment and query cut off; scheme detection
